@@ -470,3 +470,12 @@ Theorem C12_param_classes_model :
                     && Bool.eqb (is_pkey c) (mem_n c getter_name)) octets = true.
 Proof. exact model_classes_are_source_classes. Qed.
 Print Assumptions C12_param_classes_model.
+
+(* ===================================================================== group 2b: invalid ranges are refused *)
+(* a range with a stop that does not satisfy 0 <= start < stop (its str() would not be a byte-range-spec, e.g.
+   "bytes=0--1") is refused with ValueError, given as tuple / list or as Range object: nothing outside the field's wire
+   syntax is stored through the typed attribute *)
+Theorem C12_range_invalid_refused : forall s e, ~ (0 <= s < e)%Z -> (0 <= e)%Z ->
+  serialize_range (PInts [Some s; Some e]) = Raise ValueError /\ serialize_range (PRange s (Some e)) = Raise ValueError.
+Proof. exact range_invalid_refused. Qed.
+Print Assumptions C12_range_invalid_refused.
